@@ -44,7 +44,7 @@ def showLevel : Level → String
   | .silenced => "0" | .low => "1" | .normal => "2" | .high => "3" | .over => "4"
 
 def showReason : Reason → String
-  | .user => "u" | .rollback => "rb" | .replication => "rep" | .random => "rnd"
+  | .user => "u" | .rollback => "rb" | .replication => "rep" | .random => "rnd" | .readd => "add"
 
 def geneOf (s : String) : Option (Gene Nat) :=
   match s.splitOn ":" with
